@@ -54,7 +54,7 @@ def br(r, v, n): return I("br", r=r, v=v, w=n)
 def normalize(p):
     """Fill in object tables from the instructions. Returns a new dict."""
     q = {"threads": [[{**DEFAULT, **i} for i in th] for th in p["threads"]]}
-    sets = {k: set(p.get(k, [])) for k in ("atoms", "cells", "mtxs", "rws", "cvs", "ntfs", "chans", "trks", "tls", "lzs", "aws")}
+    sets = {k: set(p.get(k, [])) for k in ("atoms", "cells", "mtxs", "rws", "cvs", "ntfs", "chans", "trks", "tls", "lzs", "aws", "slots")}
     if isinstance(p.get("arcs"), list):     # already normalized: rebuild the declaration
         arcs = {a: {"h0": [h for h in p.get("h0", []) if p["hmap"][h] == a], "cell": p.get("acell", {}).get(a, "")}
                 for a in p["arcs"]}
@@ -92,6 +92,13 @@ def normalize(p):
                 sets["tls"].add(i["o"])
                 if op == "tlnest": sets["tls"].add(i["o2"])
             elif op in LZ_OPS: sets["lzs"].add(i["o"])
+            elif op == "blockon" and i["k"] == "raw":
+                sets["slots"].add(i["o"])
+                if i["ord2"]: sets["slots"].add(i["ord2"])
+                sets["atoms"].add(i["o2"])
+                sets["atoms"].add(i["o2"] + "r")
+                if i["w"]: sets["atoms"].add(i["o2"] + "2")
+            elif op in ("wakeslot", "wakeref"): sets["slots"].add(i["o"])
             elif op == "blockon":
                 sets["aws"].add(i["o"])
                 sets["atoms"].add(i["o2"])
@@ -144,7 +151,7 @@ def tla_prog(q):
     parts = {
         "threads": tla([[{f: i[f] for f in FIELDS} for i in th] for th in q["threads"]]),
     }
-    for k in ("atoms", "cells", "mtxs", "rws", "cvs", "ntfs", "chans", "arcs", "trks", "h0", "tls", "lzs", "aws"):
+    for k in ("atoms", "cells", "mtxs", "rws", "cvs", "ntfs", "chans", "arcs", "trks", "h0", "tls", "lzs", "aws", "slots"):
         parts[k] = tla(set(q.get(k, [])))
     parts["hmap"] = tla_fun(q["hmap"])
     parts["acell"] = tla_fun(q["acell"])
